@@ -181,3 +181,20 @@ PROP["manifest"]["level_text"] += (
     "C15Hist / C15 over histories that also contain UpdateSize, for caches with any latency windows). Tied to "
     "cache/cache.go by the ca correspondence, profile c15 (WithLatencyWindows / WithAvgLatencyPrecision caches, "
     "latency.Now on the scripted clock, op updsize, corpus/C15/latency_only_post_sync_accepted.ops).")
+# round 2 (builder bCACHEX, follow-up): the latency leaves of a refresh over the whole loop (Props/C15WireLeaves.lean)
+PROP["modules"] += ["Gnmi.Props.C15WireLeaves"]
+PROP["theorems"] += ["Gnmi.C15Wire." + t for t in [
+    "latency_leaves_exported", "updateMetadata_leaves_exported", "latency_leaves_bounded",
+    "generateMetaUpdates_keepsK", "genLatOne_other", "latPath_unrelated", "latPath_key_inj", "mem_latKeys",
+    "latKeys_nodup", "exported_append_some", "exported_mem",
+    "refresh_outside_latency_agrees", "data_outside_latency", "runX_data_agrees_nowin"]]
+PROP["manifest"]["level_text"] += (
+    " Whole refresh (Props/C15WireLeaves.lean): latency_leaves_exported (after updateMeta, for every configured window w "
+    "and statistic st whose metadata entry is set to v and whose name is not excluded, the leaf "
+    "meta/latency/window/<w>/<st> holds the integer v, provided nothing is stored above or below that path, a leaf "
+    "already there is older than the clock, and CompactDurationString separates the windows; the other steps of the "
+    "refresh do not touch it), latency_leaves_bounded (after any history, every latency leaf value the next "
+    "UpdateMetadata writes is bounded by the samples of the accepted post-sync updates its window covers), "
+    "refresh_outside_latency_agrees (a refresh of a cache with windows leaves every path outside the latency paths - "
+    "every data leaf -, the sync flag and the latest timestamp as Model/Cache.lean's refresh does); the history form "
+    "runX_data_agrees is stated as a Prop and proved only without windows (runX_data_agrees_nowin).")
